@@ -1,0 +1,244 @@
+//! connection ids (long form) and plaintext packet headers: `ConnectionId::{encode_long, decode_long}`,
+//! `Header::encode`, `PartialEncode::finish` (length patch; header protection = identity, no packet
+//! protection) and `PartialDecode::new`
+//!
+//! Requests (first token `header` already removed):
+//!   cidenc <hex>                 -> ok <hex>
+//!   ciddec <hex>                 -> ok <cid hex> <consumed> | none
+//!   enc <hdr>                    -> ok <hex> <header_len> <pn_len>:<write_len 0|1> (or `-`)
+//!   pkt <payload hex> <hdr>      -> ok <hex of header ++ payload with the length field patched> | panic
+//!   dec <cidlen> <grease 0|1> <versions, comma separated or -> <hex>
+//!        -> ok <phdr> pos=<n> len=<packet length> rest=<trailing bytes or -> | err invalid <reason> |
+//!           err version <version> <src> <dst>
+//! <hdr>  = initial <version> <dcid> <scid> <token> <pnlen> <pn> | handshake|zerortt <version> <dcid> <scid>
+//!          <pnlen> <pn> | retry <version> <dcid> <scid> | short <spin> <keyphase> <dcid> <pnlen> <pn> |
+//!          vn <random> <dcid> <scid>
+//! <phdr> = initial <version> <dcid> <scid> <token_start> <token_len> <len> | handshake|zerortt <version>
+//!          <dcid> <scid> <len> | retry <version> <dcid> <scid> | short <spin> <dcid> | vn <random> <dcid> <scid>
+use bytes::{Bytes, BytesMut};
+
+use super::{hex, num, unhex, Comp, BAD};
+use crate::crypto::HeaderKey;
+use crate::packet::{
+    FixedLengthConnectionIdParser, Header, InitialHeader, LongType, PacketDecodeError, PacketNumber,
+    PartialDecode, ProtectedHeader, ProtectedInitialHeader,
+};
+use crate::shared::ConnectionId;
+use crate::MAX_CID_SIZE;
+
+/// header protection that changes nothing (the model has no header protection)
+struct Plain;
+impl HeaderKey for Plain {
+    fn decrypt(&self, _: usize, _: &mut [u8]) {}
+    fn encrypt(&self, _: usize, _: &mut [u8]) {}
+    fn sample_size(&self) -> usize {
+        0
+    }
+}
+
+pub(super) struct HeaderC;
+impl Comp for HeaderC {
+    fn exec(&mut self, w: &[&str]) -> String {
+        match w {
+            ["cidenc", h] => {
+                let Some(c) = cid(h) else { return BAD.into() };
+                let mut buf = Vec::new();
+                c.encode_long(&mut buf);
+                format!("ok {}", hex(&buf))
+            }
+            ["ciddec", h] => {
+                let Some(b) = unhex(h) else { return BAD.into() };
+                let mut r = &b[..];
+                match ConnectionId::decode_long(&mut r) {
+                    Some(c) => format!("ok {} {}", hex(&c), b.len() - r.len()),
+                    None => "none".into(),
+                }
+            }
+            ["enc", rest @ ..] => {
+                let Some(h) = header(rest) else { return BAD.into() };
+                let mut buf = Vec::new();
+                let pe = h.encode(&mut buf);
+                let pn = match pe.verif_pn() {
+                    None => "-".to_string(),
+                    Some((l, w)) => format!("{l}:{}", w as u8),
+                };
+                format!("ok {} {} {pn}", hex(&buf), pe.header_len)
+            }
+            ["pkt", payload, rest @ ..] => {
+                let (Some(payload), Some(h)) = (unhex(payload), header(rest)) else {
+                    return BAD.into();
+                };
+                let mut buf = Vec::new();
+                let pe = h.encode(&mut buf);
+                buf.extend_from_slice(&payload);
+                pe.finish(&mut buf, &Plain, None);
+                format!("ok {}", hex(&buf))
+            }
+            ["dec", cidlen, grease, versions, h] => {
+                let (Some(cidlen), Some(b)) = (num(cidlen), unhex(h)) else {
+                    return BAD.into();
+                };
+                if cidlen > MAX_CID_SIZE as u64 {
+                    return BAD.into();
+                }
+                let grease = match *grease {
+                    "0" => false,
+                    "1" => true,
+                    _ => return BAD.into(),
+                };
+                let mut vs = Vec::new();
+                if *versions != "-" {
+                    for v in versions.split(',') {
+                        let Some(v) = num(v).and_then(|v| u32::try_from(v).ok()) else {
+                            return BAD.into();
+                        };
+                        vs.push(v);
+                    }
+                }
+                let parser = FixedLengthConnectionIdParser::new(cidlen as usize);
+                match PartialDecode::new(BytesMut::from(&b[..]), &parser, &vs, grease) {
+                    Ok((pd, rest)) => {
+                        let (ph, pos) = pd.verif_parts();
+                        format!(
+                            "ok {} pos={pos} len={} rest={}",
+                            render(ph),
+                            pd.len(),
+                            rest.map_or("-".to_string(), |r| r.len().to_string())
+                        )
+                    }
+                    Err(PacketDecodeError::InvalidHeader(reason)) => {
+                        format!("err invalid {}", reason.replace(' ', "_"))
+                    }
+                    Err(PacketDecodeError::UnsupportedVersion {
+                        src_cid,
+                        dst_cid,
+                        version,
+                    }) => format!("err version {version} {} {}", hex(&src_cid), hex(&dst_cid)),
+                }
+            }
+            _ => BAD.into(),
+        }
+    }
+}
+
+fn cid(s: &str) -> Option<ConnectionId> {
+    let b = unhex(s)?;
+    if b.len() > MAX_CID_SIZE {
+        return None;
+    }
+    Some(ConnectionId::new(&b))
+}
+
+fn flag(s: &str) -> Option<bool> {
+    match s {
+        "0" => Some(false),
+        "1" => Some(true),
+        _ => None,
+    }
+}
+
+fn pn(len: &str, v: &str) -> Option<PacketNumber> {
+    let v = num(v)?;
+    Some(match len {
+        "1" => PacketNumber::U8(u8::try_from(v).ok()?),
+        "2" => PacketNumber::U16(u16::try_from(v).ok()?),
+        "3" => {
+            if v >= 1 << 24 {
+                return None;
+            }
+            PacketNumber::U24(v as u32)
+        }
+        "4" => PacketNumber::U32(u32::try_from(v).ok()?),
+        _ => return None,
+    })
+}
+
+fn version(s: &str) -> Option<u32> {
+    u32::try_from(num(s)?).ok()
+}
+
+fn header(w: &[&str]) -> Option<Header> {
+    Some(match w {
+        ["initial", v, d, s, t, l, n] => Header::Initial(InitialHeader {
+            dst_cid: cid(d)?,
+            src_cid: cid(s)?,
+            token: Bytes::from(unhex(t)?),
+            number: pn(l, n)?,
+            version: version(v)?,
+        }),
+        [ty @ ("handshake" | "zerortt"), v, d, s, l, n] => Header::Long {
+            ty: if *ty == "handshake" {
+                LongType::Handshake
+            } else {
+                LongType::ZeroRtt
+            },
+            dst_cid: cid(d)?,
+            src_cid: cid(s)?,
+            number: pn(l, n)?,
+            version: version(v)?,
+        },
+        ["retry", v, d, s] => Header::Retry {
+            dst_cid: cid(d)?,
+            src_cid: cid(s)?,
+            version: version(v)?,
+        },
+        ["short", spin, kp, d, l, n] => Header::Short {
+            spin: flag(spin)?,
+            key_phase: flag(kp)?,
+            dst_cid: cid(d)?,
+            number: pn(l, n)?,
+        },
+        ["vn", r, d, s] => Header::VersionNegotiate {
+            random: u8::try_from(num(r)?).ok()?,
+            dst_cid: cid(d)?,
+            src_cid: cid(s)?,
+        },
+        _ => return None,
+    })
+}
+
+fn render(h: &ProtectedHeader) -> String {
+    match h {
+        ProtectedHeader::Initial(ProtectedInitialHeader {
+            dst_cid,
+            src_cid,
+            token_pos,
+            len,
+            version,
+        }) => format!(
+            "initial {version} {} {} {} {} {len}",
+            hex(dst_cid),
+            hex(src_cid),
+            token_pos.start,
+            token_pos.end - token_pos.start
+        ),
+        ProtectedHeader::Long {
+            ty,
+            dst_cid,
+            src_cid,
+            len,
+            version,
+        } => format!(
+            "{} {version} {} {} {len}",
+            match ty {
+                LongType::Handshake => "handshake",
+                LongType::ZeroRtt => "zerortt",
+            },
+            hex(dst_cid),
+            hex(src_cid)
+        ),
+        ProtectedHeader::Retry {
+            dst_cid,
+            src_cid,
+            version,
+        } => format!("retry {version} {} {}", hex(dst_cid), hex(src_cid)),
+        ProtectedHeader::Short { spin, dst_cid } => {
+            format!("short {} {}", *spin as u8, hex(dst_cid))
+        }
+        ProtectedHeader::VersionNegotiate {
+            random,
+            dst_cid,
+            src_cid,
+        } => format!("vn {random} {} {}", hex(dst_cid), hex(src_cid)),
+    }
+}
